@@ -838,7 +838,8 @@ def reindex_(
         # all groups were NaN
         shape = array.shape[:-1] + (len(to),)
         if array_type in (ReindexArrayType.AUTO, ReindexArrayType.NUMPY):
-            reindexed = np.full(shape, fill_value, dtype=array.dtype)
+            # full_like keeps the array type (a dask array stays lazy)
+            reindexed = np.full_like(array, fill_value, shape=shape)
         else:
             raise NotImplementedError
         return reindexed
